@@ -42,13 +42,20 @@ ShapeSeqT == AllLen3 \o << <<1, 1, 1, 1, 1>>, <<3, 3, 3, 3, 3>>, <<2, 2, 2, 2, 2
 RECURSIVE Flat(_)
 Flat(ss) == IF ss = <<>> THEN <<>> ELSE Head(ss) \o Flat(Tail(ss))
 Slots == Flat(IF Tier = "quick" THEN ShapeSeqQ ELSE ShapeSeqT)
+(* the split program: s2 holds only the declaration `:- dynamic(d_x/1)`, s1 the clauses of d_x/1 (two versions); s2 is   *)
+(* loaded first and never again (what a later declaration does to the clauses of another file is not specified)         *)
+SplitSlots == <<3, 1, 1, 1, 2, 2, 1, 1>>
+SlotsOf(s) == IF s.split THEN SplitSlots ELSE Slots
 
 KindPairs == { <<"str", "str">>, <<"file", "file">>, <<"str", "file">> }
 ApiPairs  == { <<"load", "load">>, <<"consult", "consult">>, <<"load", "consult">> }
 
 (* with one common owner ("user") the two sources may define the same predicates: T3 moves to family x *)
-Scenarios == { [kinds |-> kp, apis |-> ap, t |-> tr, same |-> sm] :
+SplitTriples == { <<Code("x", c1, {"dcl"}), Code("x", c2, {"dcl", "dcl2"}), Code("y", 0, {"xdyn"})>> : c1 \in {1, 4}, c2 \in {2} }
+Scenarios == { [kinds |-> kp, apis |-> ap, t |-> tr, same |-> sm, split |-> FALSE] :
                  kp \in KindPairs, ap \in ApiPairs, tr \in Triples, sm \in {FALSE, TRUE} }
+             \cup { [kinds |-> <<"file", "file">>, apis |-> ap, t |-> tr, same |-> FALSE, split |-> TRUE] :
+                      ap \in ApiPairs, tr \in SplitTriples }
 Admissible(s) == s.same => (s.kinds = <<"str", "str">> /\ s.t[3].cs \in {1, 3, 5})
 
 (* texts of the anonymous owner agree on declaring p/q discontiguous (see Loader: outside the model otherwise) *)
@@ -59,7 +66,7 @@ T3Of(s) == IF s.same THEN WithDisc([s.t[3] EXCEPT !.fam = "x"], "disc" \in s.t[1
 OpOf(s, slot) == CASE slot = 1 -> [src |-> "s1", kind |-> s.kinds[1], api |-> s.apis[1], code |-> T1Of(s)]
                    [] slot = 2 -> [src |-> "s1", kind |-> s.kinds[1], api |-> s.apis[1], code |-> T2Of(s)]
                    [] slot = 3 -> [src |-> "s2", kind |-> s.kinds[2], api |-> s.apis[2], code |-> T3Of(s)]
-Ops(s) == [j \in 1..Len(Slots) |-> OpOf(s, Slots[j])]
+Ops(s) == [j \in 1..Len(SlotsOf(s)) |-> OpOf(s, SlotsOf(s)[j])]
 Do(L, op) == LoadText(L, op.src, op.kind, op.code)
 
 (* the states along a history: <<L0, L1, .., Ln>> *)
@@ -81,12 +88,14 @@ Walk(ops, sts, ks, j, acc) ==
            noop   == after = before
            info   == [noop   |-> noop,
                       k      |-> Cardinality({i \in 1..j : ops[i] = ops[j]}),
-                      probes |-> IF noop /\ j > 1 THEN <<>> ELSE [i \in 1..Len(ks) |-> Probe(after, ks[i])]]   \* <<>>: as after the previous load
+                      probes |-> IF noop /\ j > 1 THEN <<>>                                                    \* <<>>: as after the previous load
+                                 ELSE LET dk == SelectSeq(ks, LAMBDA K : K \in after.dyn /\ K[2] = 1)
+                                      IN [i \in 1..Len(ks) |-> Probe(after, ks[i])] \o [i \in 1..Len(dk) |-> ProbeCl(after, dk[i])]]
        IN Walk(ops, sts, ks, j + 1, Append(acc, info))
 Steps(s, ops) == Walk(ops, StatesOf(ops), ProbeSeq(s), 1, <<>>)
 
 VARIABLES phase, sc
-Init == phase = "pick" /\ sc = [kinds |-> <<>>]
+Init == phase = "pick" /\ sc = [kinds |-> <<>>, split |-> FALSE]
 Next == /\ phase = "pick"
         /\ \E s \in Scenarios : Admissible(s) /\ sc' = s
         /\ phase' = "case"
@@ -121,7 +130,7 @@ Emit ==
   phase = "case" =>
     LET ops == Ops(sc) IN
     PrintT(ToJson([kinds |-> sc.kinds, apis |-> sc.apis, same |-> sc.same,
-                   ops   |-> [j \in 1..Len(ops) |-> [src |-> ops[j].src, kind |-> ops[j].kind, api |-> ops[j].api, slot |-> Slots[j],
+                   ops   |-> [j \in 1..Len(ops) |-> [src |-> ops[j].src, kind |-> ops[j].kind, api |-> ops[j].api, slot |-> SlotsOf(sc)[j],
                                                      code |-> [fam |-> ops[j].code.fam, cs |-> ops[j].code.cs]]],
                    texts |-> <<Text(T1Of(sc)), Text(T2Of(sc)), Text(T3Of(sc))>>,
                    codes |-> <<T1Of(sc), T2Of(sc), T3Of(sc)>>,
